@@ -198,7 +198,7 @@ func c02Devs() []c02Dev {
 
 	// PREF64.
 	setT("f-prefix", "pref64", "prefix", "", "64:ff9b::/96", "2001:db8::/64", "2001:db8::/56", "2001:db8::/48", "2001:db8::/40", "2001:db8::/32",
-		"2001:db8::/33", "2001:db8::/95", "2001:db8::/97", "::/0", "2001:db8::/128", "10.0.0.0/8", "10.0.0.0/32", "::ffff:10.0.0.0/96", "64:ff9b::1/96", "garbage", "/33")
+		"2001:db8::/33", "2001:db8::/95", "2001:db8::/97", "2001:db8::/24", "2001:db8::/72", "2001:db8::/80", "2001:db8::/88", "2001:db8::/104", "::/0", "2001:db8::/128", "10.0.0.0/8", "10.0.0.0/32", "::ffff:10.0.0.0/96", "64:ff9b::1/96", "garbage", "/33")
 	setT("f-unknown", "pref64", "bogus", "x")
 	noT("f-struct", "pref64")
 	addT("f-struct", "pref64-2", "pref64", ref.Table{"prefix": "2001:db8:64::/96"})
